@@ -180,7 +180,6 @@ PROPERTIES = {}
 OPEN_DEFECTS = {
     "D5": ("`))` pops one branch anchor: {[#A]([#B]([#C]))[#D]} attaches D to B", ["C04", "C01", "C11", "C14", "C20", "C05", "C02"]),
     "D6": ("`|n` inside a coarse fragment shifts descriptor and annotation indices: {#X=[#A]|3[#C][$]}", ["C13", "C06", "C02", "C03", "C05", "C14", "C16"]),
-    "D7": ("coarse fragment nodes are parsed with the atomistic dialect: {#X=[#B;q=1]} gives charge 0", ["C14", "C13", "C02", "C20"]),
     "D8": ("nested / repeated branch multipliers are not the written-out graph: {[#A]([#B]([#C])[#D])|3}", ["C05", "C06", "C11", "C20"]),
     "D9": ("a bond order at the closing ring marker is dropped: {[#A]1[#B][#C]=1}", ["C04", "C01"]),
     "D10": ("long keywords charge= / weight= are overwritten by the default: {[#A;charge=1]}", ["C04", "C14"]),
@@ -196,7 +195,7 @@ OPEN_DEFECTS = {
 
 
 def prop(pid, rules, decided, undecided, floors=None, assumptions=None):
-    reported = {"D5", "D6", "D7", "D15", "D17"}      # rules/gaps.py states a necessary condition for these: KNOWN-FINDING lines
+    reported = {"D5", "D6", "D15", "D17"}      # rules/gaps.py states a necessary condition for these: KNOWN-FINDING lines
     known = ["%s (%s%s)" % (k, v[0], ", reported as KNOWN-FINDING" if k in reported else ", not reported by any rule") for k, v in OPEN_DEFECTS.items() if pid in v[1]]
     if known:
         undecided = undecided + "; KNOWN VIOLATIONS of the behaviour, found by testing (DESIGN 16): " + "; ".join(known)
